@@ -231,6 +231,9 @@ def merge_states(c, s1, s2):
                 s1.scal[f'init:{k}'] = BoolV(ia)
                 s2.scal[f'init:{k}'] = BoolV(ib)
                 continue
+            if a_ is None and b_ is None:
+                s.env[k] = None       # declared, assigned on neither path: still indeterminate
+                continue
             m = merge_val(c, a_, b_)
             if m is None:
                 raise ExtractionError(f'cannot merge local {s1.names.get(k, k)} at join')
